@@ -48,7 +48,9 @@ def run(rep, tier, seed):
                    corr_ok, json.dumps((corr['disagreements'] + corr['coq_errors'])[:2], default=str)[:1500])
     rep.obligation('correspondence 4.5 (binding stream): %d random graphs with permuted vertex lists, duplicate ids (%d graphs) and several edges: same bindings'
                    % (bind['graphs'], bind['duplicate_id_graphs']), bind_ok, json.dumps((bind['disagreements'] + bind['coq_errors'])[:2], default=str)[:1500])
-    orv = corp_bad + corr['oracle_violations'] + bind['oracle_violations']
+    n_g2o, g2o_bad = corr_eqvalid.c18_g2o_entry()
+    rep.cov['g2o_entry_point_cases'] = n_g2o
+    orv = corp_bad + corr['oracle_violations'] + bind['oracle_violations'] + g2o_bad
     rep.cov['corpus_cases'] = ncorp
     rep.obligation('direct oracle: declarative specification on the implementation (unknown id -> KeyError; inconsistent -> AssertionError; consistent -> accepted, '
                    'bound to the last vertex with the named id, calc_chi2() and optimize(max_iter=1) run) on %d constructions' % (corr['evaluations'] + bind['graphs']),
